@@ -202,7 +202,7 @@ class Sim(object):
         self.tmpdir = None
         if store_url == "":
             import tempfile, atexit, shutil
-            self.tmpdir = tempfile.mkdtemp(prefix="lsfsim-")
+            self.tmpdir = tempfile.mkdtemp(prefix="lsfsim-", dir="/dev/shm" if os.access("/dev/shm", os.W_OK) else None)
             atexit.register(shutil.rmtree, self.tmpdir, True)
             store_url = os.path.join(self.tmpdir, "ASL_store.json")
         self.store_url = store_url
@@ -483,9 +483,23 @@ class Sim(object):
     def record(self, exec_arn, i=0):
         e = self.engine(i)
         r = e.executions.get(exec_arn)
-        return dict(r) if r is not None else None
+        if r is None:
+            return None
+        # a Redis-backed record: one HGETALL instead of one HGET per member (same content)
+        return r.to_dict() if hasattr(r, "to_dict") else dict(r)
 
     def history(self, exec_arn, i=0):
         e = self.engine(i)
         h = e.execution_history.get(exec_arn)
-        return list(h) if h is not None else None
+        if h is None:
+            return None
+        if hasattr(h, "redis") and hasattr(h, "key") and hasattr(h, "_decode"):
+            # a Redis-backed log is read after every step by the monitors: its items are decoded again only when the raw
+            # list the server holds differs from the one read last (compared as bytes, so nothing goes unnoticed)
+            raw = h.redis.lrange(h.key, 0, -1)
+            cache = self.__dict__.setdefault("_hist_cache", {})
+            c = cache.get((exec_arn, i))
+            if c is None or c[0] != raw:
+                c = cache[(exec_arn, i)] = (raw, [h._decode(v) for v in raw])
+            return list(c[1])
+        return list(h)
